@@ -17,6 +17,7 @@ package validate
 import (
 	"context"
 	"fmt"
+	"math"
 	"reflect"
 	"strings"
 	"unicode/utf8"
@@ -327,13 +328,20 @@ func MaximumNativeType(path, in string, val interface{}, maximum float64, exclus
 	switch kind { //nolint:exhaustive
 	case reflect.Int, reflect.Int8, reflect.Int16, reflect.Int32, reflect.Int64:
 		value := valueHelp.asInt64(val)
-		return MaximumInt(path, in, value, int64(maximum), exclusive)
+		if bound, ok := float64AsInt64(maximum); ok {
+			return MaximumInt(path, in, value, bound, exclusive)
+		}
+		// the bound is fractional or beyond int64: truncating it would change the verdict
+		return Maximum(path, in, float64(value), maximum, exclusive)
 	case reflect.Uint, reflect.Uint8, reflect.Uint16, reflect.Uint32, reflect.Uint64:
 		value := valueHelp.asUint64(val)
 		if maximum < 0 {
 			return errors.ExceedsMaximum(path, in, maximum, exclusive, val)
 		}
-		return MaximumUint(path, in, value, uint64(maximum), exclusive)
+		if bound, ok := float64AsUint64(maximum); ok {
+			return MaximumUint(path, in, value, bound, exclusive)
+		}
+		return Maximum(path, in, float64(value), maximum, exclusive)
 	case reflect.Float32, reflect.Float64:
 		fallthrough
 	default:
@@ -357,13 +365,19 @@ func MinimumNativeType(path, in string, val interface{}, minimum float64, exclus
 	switch kind { //nolint:exhaustive
 	case reflect.Int, reflect.Int8, reflect.Int16, reflect.Int32, reflect.Int64:
 		value := valueHelp.asInt64(val)
-		return MinimumInt(path, in, value, int64(minimum), exclusive)
+		if bound, ok := float64AsInt64(minimum); ok {
+			return MinimumInt(path, in, value, bound, exclusive)
+		}
+		return Minimum(path, in, float64(value), minimum, exclusive)
 	case reflect.Uint, reflect.Uint8, reflect.Uint16, reflect.Uint32, reflect.Uint64:
 		value := valueHelp.asUint64(val)
 		if minimum < 0 {
 			return nil
 		}
-		return MinimumUint(path, in, value, uint64(minimum), exclusive)
+		if bound, ok := float64AsUint64(minimum); ok {
+			return MinimumUint(path, in, value, bound, exclusive)
+		}
+		return Minimum(path, in, float64(value), minimum, exclusive)
 	case reflect.Float32, reflect.Float64:
 		fallthrough
 	default:
@@ -387,16 +401,41 @@ func MultipleOfNativeType(path, in string, val interface{}, multipleOf float64) 
 	switch kind { //nolint:exhaustive
 	case reflect.Int, reflect.Int8, reflect.Int16, reflect.Int32, reflect.Int64:
 		value := valueHelp.asInt64(val)
-		return MultipleOfInt(path, in, value, int64(multipleOf))
+		if factor, ok := float64AsInt64(multipleOf); ok {
+			return MultipleOfInt(path, in, value, factor)
+		}
+		return MultipleOf(path, in, float64(value), multipleOf)
 	case reflect.Uint, reflect.Uint8, reflect.Uint16, reflect.Uint32, reflect.Uint64:
 		value := valueHelp.asUint64(val)
-		return MultipleOfUint(path, in, value, uint64(multipleOf))
+		if multipleOf <= 0 {
+			return errors.MultipleOfMustBePositive(path, in, multipleOf)
+		}
+		if factor, ok := float64AsUint64(multipleOf); ok {
+			return MultipleOfUint(path, in, value, factor)
+		}
+		return MultipleOf(path, in, float64(value), multipleOf)
 	case reflect.Float32, reflect.Float64:
 		fallthrough
 	default:
 		value := valueHelp.asFloat64(val)
 		return MultipleOf(path, in, value, multipleOf)
 	}
+}
+
+// float64AsInt64 converts a constraint to int64 when that conversion is exact.
+func float64AsInt64(f float64) (int64, bool) {
+	if f != math.Trunc(f) || f < -9223372036854775808 || f >= 9223372036854775808 {
+		return 0, false
+	}
+	return int64(f), true
+}
+
+// float64AsUint64 converts a non-negative constraint to uint64 when that conversion is exact.
+func float64AsUint64(f float64) (uint64, bool) {
+	if f != math.Trunc(f) || f < 0 || f >= 18446744073709551616 {
+		return 0, false
+	}
+	return uint64(f), true
 }
 
 // IsValueValidAgainstRange checks that a numeric value is compatible with
